@@ -197,6 +197,10 @@ def _merge_point(job):
         shutil.rmtree(d, ignore_errors=True)
 
 
+def loc_width(dpt, kind):
+    return 22 + dpt * 18 + ["dot", "plain", "pyp_with"].index(kind) * 6
+
+
 def _locate_point(job):
     idx, p = job          # p: {"0": {kind: bool}, "1": .., "2": ..}
     root = os.path.realpath(tempfile.mkdtemp(prefix="c16-"))
@@ -213,21 +217,21 @@ def _locate_point(job):
                         continue                     # one pyproject.toml per directory: the table wins the file
                     open(os.path.join(dirs[dpt], "pyproject.toml"), "w").write('[tool.other]\nwidth = 17\n')
                     continue
-                wv = 20 + dpt * 5 + ["dot", "plain", "pyp_with"].index(k)
+                wv = loc_width(dpt, k)
                 widths[wv] = [dpt, k]
                 open(os.path.join(dirs[dpt], KINDFILE[k]), "w").write(render_config({"width": wv}, idx % 4, pyproject=(k == "pyp_with")))
         os.chdir(dirs[0])
         open("probe.md", "w").write(PROBE)
         rc, fmt, err = run_cli(["probe.md"])
-        obs = None
+        obs = []
         if fmt == ref_format(88, False, False, False, False, "preserve"):
-            obs = []
+            obs.append([])
         for wv, dk in widths.items():
             if fmt == ref_format(wv, False, False, False, False, "preserve"):
-                obs = dk
+                obs.append(dk)
         return dict(idx=idx, obs=obs, rc=rc, err=err[-300:], fmt_head=fmt[:100])
     except BaseException as e:  # noqa: BLE001
-        return dict(idx=idx, obs=None, rc=98, err=repr(e)[:300], fmt_head="")
+        return dict(idx=idx, obs=[], rc=98, err=repr(e)[:300], fmt_head="")
     finally:
         os.chdir(cwd0)
         shutil.rmtree(root, ignore_errors=True)
@@ -286,6 +290,10 @@ def run(tier: str) -> int:
             raise tlc.TlcError(f"model sanity: mutant {mut} not rejected")
         except tlc.TlcViolation:
             pass
+    # the locate family identifies the chosen file by its width: the probe must separate all candidate widths
+    cand = [88] + [loc_width(d, k) for d in (0, 1, 2) for k in ("dot", "plain", "pyp_with")]
+    if len({ref_format(w, False, False, False, False, "preserve") for w in cand}) != len(cand):
+        raise tlc.TlcError("probe does not separate the candidate widths of the locate family")
     merge = sorted((r for r in res.reports if r and r[0] == "M"), key=json.dumps)
     locate = sorted((r for r in res.reports if r and r[0] == "L"), key=json.dumps)
     chk.notes["model_points"] = dict(merge=len(merge), locate=len(locate))
@@ -309,7 +317,7 @@ def run(tier: str) -> int:
         tid += 1
         chk.evaluations += 1
         p = [[k for k, on in m[1][str(d)].items() if on] for d in (0, 1, 2)]
-        traces.append(dict(id=tid, fam="locate", p=p, obs=r["obs"] if r["obs"] is not None else ["?", "?"]))
+        traces.append(dict(id=tid, fam="locate", p=p, obs=r["obs"]))
         metas[tid] = dict(fam="locate", dirs=p, model_chosen=m[2], observed=r["obs"], rc=r["rc"], stderr=r["err"], output_head=r["fmt_head"])
         if any(p):
             chk.nontriv(json.dumps(p))
